@@ -68,7 +68,36 @@ def build(ex):
     remote.setup = _setup
     return [(childrun.process_run_injected(ex, 'L2p', 'C03'), None),
             (childrun.thread_run_injected(ex, 'L2t', 'C03'), None),
-            (remote, None)] + relay_lemmas(ex)
+            (remote, None)] + relay_lemmas(ex) + persistent_loop_lemmas(ex)
+
+
+def persistent_loop_lemmas(ex):
+    """L2d: the run functions above call do_work() - for the persistent kinds that is the loop that serves the inputs, with its own bookkeeping (_send_result).
+    A graceful terminate landing at ANY statement boundary of that loop or of _send_result must leave do_work as the WorkerTerminatedError it is: if some handler
+    in there swallows it, the worker carries on and ends with a normal outcome (the run function's contract above takes do_work as 'raises what lands in it')."""
+    from pyvc.contracts import InjectCfg
+    from . import persistent
+    persistent.spec_functions(ex)
+    out = []
+
+    def terminate_not_swallowed(c):
+        ex_ = c.ex
+        if not any(i[0] == 'wte' for i in ex_.ghost.get('__injections__', [])):
+            return z3.BoolVal(True)
+        exc = c.env.get('raised')
+        return z3.BoolVal(isinstance(exc, VExc) and str(exc.cls).split('.')[-1] == 'WorkerTerminatedError')
+    terminate_not_swallowed.__doc__ = ('a graceful terminate that landed inside the loop leaves do_work as a WorkerTerminatedError - it is never swallowed by a handler of the '
+                                       'loop\'s own bookkeeping (the worker would carry on and end with a normal outcome)')
+    for kind in ('thread', 'process', 'remote'):
+        cls = persistent.KINDS[kind]
+        con = persistent.do_work_contract(ex, kind, f'L2d-{kind}', 'LocalPipe' if kind == 'thread' else 'Pipe', 'list')
+        con.name = f'C03.L2d-{kind} a graceful terminate landing anywhere in the persistent loop (do_work / _send_result) leaves it as WorkerTerminatedError'
+        con.inject = InjectCfg([cls + '.do_work', cls + '._send_result'], budget=1, kinds=('wte',), split_store=True)
+        con.ensures = []
+        con.all_exits = [terminate_not_swallowed]
+        con.on_vanish = []
+        out.append((con, None))
+    return out
 
 
 def relay_lemmas(ex):
@@ -147,6 +176,22 @@ def relay_lemmas(ex):
     out.append((Contract(TW + '.terminate', lid='L1-thread', name='C03.L1-thread ThreadWorker.terminate raises WorkerTerminatedError once, in the worker\'s own thread',
                          params={'self': ('const', None), 'timeout': ('const', None), 'force': ('const', None)}, self_class=TW, setup=thread_setup, returns='bool',
                          ensures=[thread_post], raises={}, raises_only=[], all_exits=[raise_before_release], options={'recv_closed_check': False}), None))
+
+    # ---- process and remote kinds, parent side: the request is written - once, and before the child is released from waiting for input.  These are the
+    # contracts of the C04 cone on ProcessWorker.terminate / RemoteWorker.terminate, restricted to the clauses about the request.
+    from . import C04
+    saved_hooks = dict(ex.call_hooks)
+    for con, v in C04.build(ex):
+        keep = {'Lt-process': ('L1-process-parent', ('request_delivered',), 'ProcessWorker.terminate writes exactly one request on the control pipe, before releasing the child'),
+                'Lt-remote': ('L1-remote-parent', ('force_forwarded', 'request_sent'), 'RemoteWorker.terminate (parent side) sends the request (\'terminate\', (remote timeout, force)) to the server')}.get(con.lid)
+        if keep is None:
+            continue
+        con.lid = keep[0]
+        con.name = f'C03.{keep[0]} {keep[2]}'
+        con.ensures = [e for e in con.ensures if getattr(e, '__name__', '') in keep[1]]
+        out.append((con, v))
+    ex.call_hooks.clear()
+    ex.call_hooks.update(saved_hooks)
 
     # ---- process kind / remote backend: the child's control thread
     def ctrl_setup(cls, persistent_attrs=False):
@@ -307,6 +352,10 @@ def scenario_from(ob):
 
 def replay(ob, repo):
     from pyvc.native import run_script
+    if 'L2d-' in ob.get('lemma', ''):
+        # the persistent loop under injection: same landing points, same native scenario as C06.L6
+        from . import C06
+        return C06.replay(dict(ob, lemma=ob['lemma'].replace('C03.L2d-', 'C06.L6-')), repo)
     if 'L1-thread' in ob.get('lemma', ''):
         r = run_script('c03_relay_native.py', {'lemma': 'L1-thread'}, repo, timeout=120)
         return bool(r.get('violates')), r
